@@ -19,6 +19,12 @@ LoopsOf(fn, t) == IF fn = "lgamma" THEN (IF t = "f32" THEN {1, 2} ELSE {3, 4, 1,
 BoundOf(fn, t, id) ==
   CASE id = 1 -> 4 [] id = 2 -> 2 [] id = 3 -> 20 [] id = 4 -> 38       \* double lgamma: large_negative() calls lgamma(|x|) once more (10+10, 36+2)
     [] id = 5 -> (IF t = "f32" THEN 36 ELSE 172) [] id = 6 -> 34 [] id = 7 -> 2 [] OTHER -> 0
-CallOK(fn, t, ticks) == \A id \in LoopIds : IF id \in LoopsOf(fn, t) THEN ticks[id] <= BoundOf(fn, t, id) ELSE ticks[id] = 0
+\* What a recorded call must satisfy.  C14 asks for "a constant that does not grow with the magnitude of the arguments", not for the
+\* analytic constants of the shipped recurrences (those are K_Gamma's subject): a harmless change of a threshold may add iterations.
+\* The trace bound is therefore one generous constant for every loop - any loop whose trip count follows the argument passes it at once
+\* (the plans contain arguments up to 2^60 and +-inf) - while the tight per-loop constants are reported in the evidence (max observed).
+TraceBound == 256
+CallOK(fn, t, ticks) == \A id \in LoopIds : IF id \in LoopsOf(fn, t) THEN ticks[id] <= TraceBound ELSE ticks[id] = 0
+TightOK(fn, t, ticks) == \A id \in LoopIds : IF id \in LoopsOf(fn, t) THEN ticks[id] <= BoundOf(fn, t, id) ELSE ticks[id] = 0
 CallWith(fn, t, ticks) == CallOK(fn, t, ticks) /\ loop' = [fn |-> fn, t |-> t, ticks |-> ticks]
 =============================================================================
